@@ -45,5 +45,9 @@ pub mod vproof {
     // V.iter().map(|e| format!("{e:02x}")).collect::<Vec<String>>().join(":")
     #[verifier::external_body]
     pub fn hex_colon_join(v: &Vec<u8>) -> (r: String) ensures r@ == hex_colon(v@) { unimplemented!() }
+    // bytes rendered with another per-byte format / separator: nothing is known about the text
+    pub uninterp spec fn fmt_join_spec(b: Seq<u8>, f: Seq<char>, sep: Seq<char>) -> Seq<char>;
+    #[verifier::external_body]
+    pub fn fmt_join(v: &Vec<u8>, f: &str, sep: &str) -> (r: String) ensures r@ == fmt_join_spec(v@, f@, sep@) { unimplemented!() }
     }
 }
